@@ -11,7 +11,9 @@ if [ "${EVAL_WORKTREE:-0}" = "1" ]; then
   WT=$(mktemp -d /tmp/evalmut.XXXXXX); rmdir "$WT"
   git -C /repo worktree add -q --detach "$WT" HEAD || exit 2
   trap 'git -C /repo worktree remove --force "$WT"; rm -rf "$SCR"' EXIT
-  git -C "$WT" apply "$PATCH" || { echo "evalmutant: patch does not apply" >&2; exit 2; }
+  # a patch written before later repairs of the same function is merged three-way
+  git -C "$WT" apply "$PATCH" 2>/dev/null || git -C "$WT" apply --3way "$PATCH" >/dev/null 2>&1 || { echo "evalmutant: patch does not apply" >&2; exit 2; }
+  if git -C "$WT" diff --name-only --diff-filter=U | grep -q .; then echo "evalmutant: patch conflicts with the current tree" >&2; exit 2; fi
   export VERIF_REPO="$WT"
 else
   cd /repo || exit 2
